@@ -224,7 +224,10 @@ def gen_op(rng, kind, replicated_only=False, allow_v1=True):
         if n == 'append':
             return [n, v()]
         if n == 'extend':
-            return [n, [v() for _ in range(rng.randrange(3))]]
+            # any iterable, as list.extend takes
+            items = [v() for _ in range(rng.randrange(3))]
+            # (elements stay integers: a failed sort of a mixed list leaves an unspecified order behind)
+            return [n, rng.choice([items, items, tuple(items), dict.fromkeys(items, 1)])]
         if n == 'insert':
             return [n, pos(), v()]
         if n in ('remove', 'index', 'count'):
@@ -242,7 +245,9 @@ def gen_op(rng, kind, replicated_only=False, allow_v1=True):
         if n in ('__setitem__', 'set', 'setdefault'):
             return [n, k(), v()]
         if n == 'update':
-            return [n, dict((k(), v()) for _ in range(rng.randrange(3)))]
+            d = dict((k(), v()) for _ in range(rng.randrange(3)))
+            # a mapping or an iterable of pairs, as dict.update takes
+            return [n, rng.choice([d, d, list(d.items()), tuple(d.items())])]
         if n == 'pop':
             return [n, k()] if rng.random() < 0.5 else [n, k(), v()]
         if n in ('__getitem__', '__contains__'):
@@ -256,7 +261,9 @@ def gen_op(rng, kind, replicated_only=False, allow_v1=True):
         if n in ('add', 'remove', 'discard', '__contains__'):
             return [n, rng.choice(VALS + [8, 9, 16, 17, 33])]
         if n == 'update':
-            return [n, set(rng.choice(VALS + [8, 16, 24, 32, 40, 48]) for _ in range(rng.randrange(8)))]
+            items = set(rng.choice(VALS + [8, 16, 24, 32, 40, 48]) for _ in range(rng.randrange(8)))
+            # any iterable, as set.update takes
+            return [n, rng.choice([items, items, sorted(items), tuple(sorted(items)), frozenset(items), dict.fromkeys(sorted(items), 0)])]
         return [n]
     if kind in ('queue', 'pqueue'):
         if n == 'put':
@@ -270,8 +277,14 @@ def gen_op(rng, kind, replicated_only=False, allow_v1=True):
 def jsonable(op):
     out = []
     for a in op:
-        if isinstance(a, set):
+        if isinstance(a, frozenset):
+            out.append({'__frozenset__': sorted(a)})
+        elif isinstance(a, set):
             out.append({'__set__': sorted(a)})
+        elif isinstance(a, tuple):
+            out.append({'__tuple__': jsonable(a)})
+        elif isinstance(a, list):
+            out.append(jsonable(a))
         elif isinstance(a, dict):
             out.append({'__dict__': [[k, v] for k, v in a.items()]})
         else:
@@ -284,6 +297,12 @@ def unjson(op):
     for a in op:
         if isinstance(a, dict) and '__set__' in a:
             out.append(set(a['__set__']))
+        elif isinstance(a, dict) and '__frozenset__' in a:
+            out.append(frozenset(a['__frozenset__']))
+        elif isinstance(a, dict) and '__tuple__' in a:
+            out.append(tuple(unjson(a['__tuple__'])))
+        elif isinstance(a, list):
+            out.append(unjson(a))
         elif isinstance(a, dict) and '__dict__' in a:
             out.append(dict((k, v) for k, v in a['__dict__']))
         else:
